@@ -152,74 +152,6 @@ func genStrictCase(t *rapid.T) Case {
 	return Case{Kind: "strict-vs-relaxed", Src: src, Class: "strict:" + s.Class()}
 }
 
-var wrapKeys = []string{"spec", "data", "foo", "rules", "items", "prometheus", "alerting_rules.yml", "x-y", "group", "metadata"}
-
-func sibling(t *rapid.T, lbl string) gen.Pair {
-	k := rapid.SampledFrom([]string{"apiVersion", "kind", "name", "zzz", "namespace", "enabled", "list", "count"}).Draw(t, lbl+".k")
-	var v *gen.Node
-	switch rapid.IntRange(0, 4).Draw(t, lbl+".v") {
-	case 0:
-		v = gen.P("v1")
-	case 1:
-		v = gen.DQ("some text")
-	case 2:
-		v = gen.Map(gen.KV("a", gen.P("b")), gen.KV("c", gen.P("1")))
-	case 3:
-		v = gen.Seq(gen.P("one"), gen.P("two"))
-	default:
-		v = gen.P("true")
-	}
-	return gen.Pair{Key: gen.P(k), Val: v}
-}
-
-// wrap builds 0-4 levels of parent structure around inner. seqOK allows
-// sequence levels (class "seq-wrapper").
-func wrap(t *rapid.T, inner *gen.Node, levels int, seqOK bool, used map[string]int) *gen.Node {
-	cur := inner
-	for lv := 0; lv < levels; lv++ {
-		lbl := fmt.Sprintf("w%d", lv)
-		if seqOK && rapid.IntRange(0, 3).Draw(t, lbl+".seq") == 0 {
-			s := &gen.Node{Kind: gen.SeqKind, Indent: rapid.IntRange(2, 5).Draw(t, lbl+".ind")}
-			nb := rapid.IntRange(0, 1).Draw(t, lbl+".nb")
-			for i := 0; i < nb; i++ {
-				s.Items = append(s.Items, gen.P("item"))
-			}
-			s.Items = append(s.Items, cur)
-			if rapid.Bool().Draw(t, lbl+".after") {
-				s.Items = append(s.Items, gen.P("tail"))
-			}
-			used["seq-level"]++
-			cur = s
-			continue
-		}
-		m := &gen.Node{Kind: gen.MapKind, Indent: rapid.IntRange(1, 5).Draw(t, lbl+".ind")}
-		seen := map[string]bool{}
-		addSib := func(l string) {
-			p := sibling(t, l)
-			if !seen[p.Key.Lines[0]] {
-				seen[p.Key.Lines[0]] = true
-				m.Pairs = append(m.Pairs, p)
-			}
-		}
-		nb := rapid.IntRange(0, 2).Draw(t, lbl+".nbefore")
-		for i := 0; i < nb; i++ {
-			addSib(fmt.Sprintf("%s.b%d", lbl, i))
-		}
-		key := rapid.SampledFrom(wrapKeys).Draw(t, lbl+".key")
-		m.Pairs = append(m.Pairs, gen.Pair{Key: gen.P(key), Val: cur})
-		na := rapid.IntRange(0, 2).Draw(t, lbl+".nafter")
-		for i := 0; i < na; i++ {
-			addSib(fmt.Sprintf("%s.a%d", lbl, i))
-		}
-		if cur.Kind == gen.SeqKind && rapid.IntRange(0, 3).Draw(t, lbl+".inl") == 0 {
-			cur.Inline = true
-		}
-		used["map-level"]++
-		cur = m
-	}
-	return cur
-}
-
 // locate finds (dl, dc) such that the wrapped text contains the base text's
 // lines contiguously, each indented by dc (the first dc columns may hold a
 // sequence dash).
@@ -292,22 +224,11 @@ func genWrapperCase(t *rapid.T) Case {
 	base = gen.Emit(inner)
 	levels := rapid.IntRange(0, 4).Draw(t, "levels")
 	seqOK := rapid.Bool().Draw(t, "seqOK")
-	root := wrap(t, inner, levels, seqOK, used)
+	root := gen.Wrap(t, inner, levels, seqOK, used)
 	wrapped := gen.Emit(root)
 	// a block-scalar level: the whole wrapped YAML as the value of a key
 	if inScalar {
-		ind := rapid.IntRange(1, 4).Draw(t, "scalarInd")
-		lines := strings.Split(strings.TrimRight(wrapped, "\n"), "\n")
-		var b strings.Builder
-		b.WriteString("kind: ConfigMap\ndata:\n  rules.yml: |\n")
-		for _, l := range lines {
-			if l == "" {
-				b.WriteString("\n")
-			} else {
-				b.WriteString(strings.Repeat(" ", 2+ind) + l + "\n")
-			}
-		}
-		wrapped = b.String()
+		wrapped = gen.InBlockScalar(wrapped, rapid.IntRange(1, 4).Draw(t, "scalarInd"))
 		used["yaml-in-scalar"]++
 	}
 	// extra documents before / after
@@ -323,15 +244,7 @@ func genWrapperCase(t *rapid.T) Case {
 	if !ok {
 		t.Fatalf("generator bug: base not found inside wrapped\nBASE:\n%s\nWRAPPED:\n%s", base, wrapped)
 	}
-	keys := make([]string, 0, len(used))
-	for k := range used {
-		keys = append(keys, k)
-	}
-	for i := 1; i < len(keys); i++ {
-		for j := i; j > 0 && keys[j] < keys[j-1]; j-- {
-			keys[j], keys[j-1] = keys[j-1], keys[j]
-		}
-	}
+	keys := gen.SortedKeys(used)
 	return Case{Kind: "wrapper", Src: base, Wrapped: wrapped, DL: dl, DC: dc,
 		Class: fmt.Sprintf("wrapper:levels=%d:%s", levels, strings.Join(keys, ","))}
 }
